@@ -104,16 +104,46 @@ func stringEnumerate(obj *object, all bool, each func(string) bool) {
 	objectEnumerate(obj, all, each)
 }
 
+// stringIndexValue returns the character the index property name of the String
+// object obj holds, if name denotes one.
+func stringIndexValue(obj *object, name string) (Value, bool) {
+	// TODO Test a string of length >= +int32 + 1?
+	if index := stringToArrayIndex(name); index >= 0 {
+		if str := obj.stringValue(); str != nil {
+			if chr := stringAt(str, int(index)); chr != stringAtNone {
+				return stringValue(string(chr)), true
+			}
+		}
+	}
+	return Value{}, false
+}
+
+// 8.12.9 with the current property taken from 15.5.5.2: an index property
+// is not in the property table, and it admits no change.
+func stringDefineOwnProperty(obj *object, name string, descriptor property, throw bool) bool {
+	current, isIndex := stringIndexValue(obj, name)
+	if !isIndex {
+		return objectDefineOwnProperty(obj, name, descriptor, throw)
+	}
+	value, hasValue := descriptor.value.(Value)
+	switch {
+	case descriptor.isAccessorDescriptor(),
+		descriptor.configurable(),
+		descriptor.enumerateSet() && !descriptor.enumerable(),
+		descriptor.writable(),
+		hasValue && !sameValue(value, current):
+		return obj.runtime.typeErrorResult(throw)
+	}
+	return true
+}
+
 func stringGetOwnProperty(obj *object, name string) *property {
 	if prop := objectGetOwnProperty(obj, name); prop != nil {
 		return prop
 	}
-	// TODO Test a string of length >= +int32 + 1?
-	if index := stringToArrayIndex(name); index >= 0 {
-		if chr := stringAt(obj.stringValue(), int(index)); chr != stringAtNone {
-			// 15.5.5.2: { [[Writable]]: false, [[Enumerable]]: true, [[Configurable]]: false }
-			return &property{stringValue(string(chr)), 0o010}
-		}
+	if chr, isIndex := stringIndexValue(obj, name); isIndex {
+		// 15.5.5.2: { [[Writable]]: false, [[Enumerable]]: true, [[Configurable]]: false }
+		return &property{chr, 0o010}
 	}
 	return nil
 }
